@@ -606,8 +606,10 @@ static string stateKey() {
 }
 
 // observation at the end of every edge: queues, live requests, flags, running scans, result presence
+static bool g_leak = false;   // more live request objects than any scenario needs: exploration stops here (the monitors report the leak)
 static void endObs(bool step) {
   checkQuarantine();
+  if (g_live.size() > 8 && !g_leak) { g_leak = true; bad("more-than-8-live-request-objects", (long)g_live.size()); }
   string nq = "[", fq = "[", lv = "[", fl = "[", rs = "[";
   bool f = true; for (BusRequest* r : VerifAccess::nextq(g_h)) { nq += (f ? "" : ",") + ji(ridOfProxy(r)); f = false; }
   f = true; for (BusRequest* r : VerifAccess::finq(g_h)) { fq += (f ? "" : ",") + ji(ridOfProxy(r)); f = false; }
@@ -708,7 +710,7 @@ static string edgeInChild(const string& tok) {
     string label = execEdge(tok);
     string used;
     for (const Used& u : g_dec.used) { used += u.chosen + ":"; for (size_t i = 0; i < u.opts.size(); i++) used += (i ? "," : "") + u.opts[i]; used += ";"; }
-    writeAll(p[1], label + "\t" + hexKey(stateKey()) + "\t" + g_ev + "\t" + used + "\n");
+    writeAll(p[1], label + "\t" + (g_leak ? string("CRASH-leak-") : string()) + hexKey(stateKey()) + "\t" + g_ev + "\t" + used + "\n");
     _exit(0);
   }
   close(p[1]);
@@ -857,6 +859,7 @@ static int cmdRandom(const char* outPath, long steps) {
     else { g_dec.rng = &rng; label = execEdge(""); g_dec.rng = nullptr; }
     out.raw("{\"id\":" + std::to_string(id) + ",\"succ\":[{\"in\":\"" + label + "\",\"ev\":[" + g_ev + "],\"to\":" + std::to_string(id + 1) + "}]}\n");
     id++;
+    if (g_leak) break;
   }
   out.raw("{\"id\":" + std::to_string(id) + ",\"succ\":[]}\n");
   printf("{\"nodes\":%ld,\"edges\":%ld,\"random\":true,\"client_calls\":%ld}\n", id, id - 1, clientCalls);
